@@ -111,6 +111,20 @@ CLAIMED = {
              "uninterpreted, bytes as code-point strings. OPP/PKONE _parse_msg (resynchronisation), matrix inputs, "
              "retry logic of send_and_wait_for_response_processed are not yet under contract.",
         ref="4.C14"),
+    "C01": dict(
+        text="Proved for all states: _post never runs a handler, appends at the end of the queue (or takes the "
+             "no-listener fast path) and schedules the drain exactly when the queue was empty; _process_event "
+             "dispatches once and queues the completion callback once, after the handlers. Checked by the same "
+             "engine on bounded structures (labelled bounded, not counted as proved): _run_handlers on 2 registered "
+             "handlers with symbolic priorities/kwargs/conditions/results (each snapshot handler whose condition holds "
+             "is called once, in order, handler kwargs override, boolean stops at first False, relay hands on updated "
+             "kwargs); add_handler keeps the list sorted (stable) and remove_* drop exactly the matching entries; "
+             "process_event_queue on every posting tree with <= 5 events dispatches depth-first and runs each "
+             "completion callback once after the transitive closure.",
+        note="Trusted: pyvc encoding, z3, rely on handlers using only the public API, asyncio call_soon. The "
+             "signature-inspection prologue of add_handler is abstracted (production mode), relative_priority absent. "
+             "Bounded parts are stated with their bounds in the evidence (bounded_checks).",
+        ref="4.C01"),
 }
 
 NA = {}
